@@ -621,3 +621,18 @@ MUTANTS = [
 # SESSION7 additions to the claim (clauses added in DESIGN section 12)
 CLAIM['technique'] += '; field value sets (flow-insensitive, closed over copies and call sites) against bit-field widths; header term of the representable running sum checked against the fields set before the index is parsed'
 CLAIM['text'] += ' C13-h: every constant known to be stored in a bit-field fits its width. C13-e (extended): the sum proven representable includes the header size through a field that is already set when the index is parsed.'
+
+MUTANTS += [
+    {'id': 'm13b', 'desc': 'digest_size kept in a 6-bit field (seeded c13r7)', 'file': 'src/lib/zck_private.h',
+     'old': """    int digest_size;
+    int valid;
+    size_t number;""", 'new': """    unsigned int digest_size:6;
+    signed int valid:2;
+    size_t number;""", 'expect': 'R9.bitfield-width zckChunk [digest_size]'},
+    {'id': 'n13b', 'desc': 'valid kept in a signed 2-bit field, digest_size in 7 bits', 'file': 'src/lib/zck_private.h',
+     'old': """    int digest_size;
+    int valid;
+    size_t number;""", 'new': """    unsigned int digest_size:7;
+    signed int valid:2;
+    size_t number;""", 'expect': None},
+]
